@@ -68,31 +68,34 @@ Theorem C13_no_upstream_on_redirect : forall q cands st t ws,
 Proof. exact no_upstream_on_redirect. Qed.
 Print Assumptions C13_no_upstream_on_redirect.
 
-(* the host loop: with the request's scheme announced in X-Forwarded-Proto (finding region 3
-   otherwise), the answering host is the first one whose route does not point back at the
-   request, none if there is no such host (reference loop [ref_lookup]); and Lookup never
-   returns a redirect that fails its own self test *)
-Theorem C13_self_redirect_skipped : forall q cands,
-  q_xfp q <> [] -> fst (lookup q cands) = ref_lookup q cands.
+(* the host loop, for every request (whatever headers the client sent: the request's own scheme
+   is the one reported in X-Forwarded-Proto, otherwise that of the connection): the answering
+   host is the first one whose route does not point back at the request's own scheme, host and
+   path, none if there is no such host (reference loop [ref_lookup]); hence Lookup never returns
+   a redirect that points back at the request *)
+Theorem C13_self_redirect_skipped : forall q cands, fst (lookup q cands) = ref_lookup q cands.
 Proof. exact self_redirect_skipped. Qed.
 Print Assumptions C13_self_redirect_skipped.
 Theorem C13_self_redirect_never_returned : forall q cands t,
-  fst (lookup q cands) = Some t -> is_redirect t = true -> is_self (build_redirect_url t q) q = false.
+  fst (lookup q cands) = Some t -> is_redirect t = true -> points_back (build_redirect_url t q) q = false.
 Proof. exact self_redirect_never_returned. Qed.
 Print Assumptions C13_self_redirect_never_returned.
 (* finding F-C13-3, repaired in /repo by fix 4431a54: the loop before the repair
    ([lookup_unrepaired]) returned the skipped redirect when it belonged to the last host *)
 Theorem C13_self_redirect_last_host_refuted :
-  exists q cands t, q_xfp q <> [] /\ fst (lookup_unrepaired q cands) = Some t /\ ref_lookup q cands = None
+  exists q cands t, fst (lookup_unrepaired q cands) = Some t /\ ref_lookup q cands = None
     /\ points_back (build_redirect_url t q) q = true
     /\ fst (lookup q cands) = None.
 Proof. exact self_redirect_last_host_refuted. Qed.
 Print Assumptions C13_self_redirect_last_host_refuted.
-(* finding F-C13-4 *)
+(* finding F-C13-4, repaired in /repo by fix bcdacf0: the loop before the repair
+   ([lookup_hdr_only]) compared the scheme with the X-Forwarded-Proto header only, so a direct
+   request was redirected to its own URL *)
 Theorem C13_self_redirect_without_xfp_refuted :
   exists q cands, q_xfp q = [] /\ ref_lookup q cands = Some t_upstream
-    /\ fst (handle q cands []) = RRedirect 301%Z (bs "http://foo.com/x")
-    /\ fst (handle (q_x (bs "http")) cands []) = RProxy 1.
+    /\ fst (lookup_hdr_only q cands) = Some t_back
+    /\ points_back (build_redirect_url t_back q) q = true
+    /\ fst (lookup q cands) = Some t_upstream.
 Proof. exact self_redirect_without_xfp_refuted. Qed.
 Print Assumptions C13_self_redirect_without_xfp_refuted.
 
